@@ -356,6 +356,16 @@ def dom_of(drv, cs):
     return d
 
 
+def near_change_fn(case, mode):
+    """float mode: is a time within the float bridge's band (2^-40) of a tempo change's time?  There the code's
+    `bco.offset > offset` may fall on either side (its stored times carry rounding), and either segment is accepted
+    (DESIGN §3, discontinuities).  Never in exact mode."""
+    if mode != "float":
+        return lambda t: False
+    T = change_times(case["cs"], F(case["t0"]))
+    return lambda t: any(close(Fr(t), Ti) for Ti in T)
+
+
 def in_dom_of(dom):
     """the hypotheses of offsets_correct / offsets_correct_any_order (queries are checked separately)"""
     return bool(dom["wf"] and dom["strict"] and dom["first_at_zero"] and dom["sorted"] and dom["grid_compatible"]
@@ -545,16 +555,25 @@ def run_roundtrip(case, drv):
             agree = False
         else:
             msn, mback = m["ok"]["snaps"], m["ok"]["back"]
+            near_change = near_change_fn(case, mode)
+            flipped = set()
             for i, (a, b) in enumerate(zip(impl_sn, msn)):
                 if a[0] != b[0] or F(a[1]) != F(b[1]):
-                    # snapping is a discontinuity: accept a flip only next to a midpoint
+                    flipped.add(i)
+                    # snapping is a discontinuity: accept a flip only next to a midpoint; so is the choice of the
+                    # segment: accept either one only for a time within the band of a change's time
                     if spec[i]["tie_margin"] is not None and abs(F(spec[i]["tie_margin"])) < Fr(1, 2 ** 40):
                         boundary = True
+                    elif near_change(F(ts[i])):
+                        boundary = True
+                        tags.append("float-boundary-segment")
                     else:
                         agree = False
-            for a, b in zip(back, mback):
+            for i, (a, b) in enumerate(zip(back, mback)):
+                if i in flipped:
+                    continue         # a tolerated flip (above) legitimately moves the time; judged by the spec below
                 maxdev = max(maxdev, dev(a, F(b)))
-                if not same(a, F(b), mode) and not boundary:
+                if not same(a, F(b), mode):
                     agree = False
         for i, (t, a) in enumerate(zip(ts, back)):
             s = spec[i]
@@ -654,12 +673,19 @@ def run_beats(case, drv):
         detail = dict(impl=impl, model=m)
     else:
         vals = impl[1]
-        near_tie = any(s["tie_margin"] is not None and abs(F(s["tie_margin"])) < Fr(1, 2 ** 40) for s in spec)
-        if "ok" not in m or len(m["ok"]) != len(vals) or any(a != F(b) for a, b in zip(vals, m["ok"])):
-            if near_tie:
-                boundary = True
-            else:
-                agree = False
+        near_change = near_change_fn(case, mode)
+        if "ok" not in m or len(m["ok"]) != len(vals):
+            agree = False
+        else:
+            # with one metronome the running sum telescopes: the count of a time depends on that time's snap only,
+            # so a discontinuity (snapping tie, segment choice at a change's time) is accepted per time
+            for i, (a, b) in enumerate(zip(vals, m["ok"])):
+                if a != F(b):
+                    tie = spec[i]["tie_margin"] is not None and abs(F(spec[i]["tie_margin"])) < Fr(1, 2 ** 40)
+                    if tie or near_change(F(ts[i])):
+                        boundary = True
+                    else:
+                        agree = False
         # spec: beats of two times differ by exactly their beat distance (on-grid times), within 1/96 otherwise;
         # and never decrease with time
         for i in range(len(ts)):
